@@ -571,6 +571,18 @@ class UartDevice:
                 self.await_ack = lambda: []
             return out
         # DATA frame
+        planned = self.ack_plan.get(self.acks_sent)
+        if planned in ("nak", "abort"):
+            # a device that answers a data packet with NAK or ABORT has not taken it (NAK: it waits for the packet again,
+            # ABORT: the data phase is over)
+            frame = self.ack()
+            if planned == "abort" and core.cur is not None and core.cur.get("dir") == "in":
+                ph = core.cur
+                core.cur = None
+                core.history.append(("aborted", ph["tag"], len(ph["buf"])))
+                self.await_ack = lambda: []
+                return [(frame, None, "ack-of-data"), (self.tx_frame(T_CMD, core.generic(ABORT_DATA_PHASE, ph["tag"])), None, "final-response")]
+            return [(frame, None, "ack-of-data")]
         kind, final = core.data_packet(payload)
         if kind == "more":
             return [(self.ack(), None, "ack-of-data")]
